@@ -37,6 +37,7 @@ type Atom struct {
 	Calls    []*ast.CallExpr // the call expressions behind Callees (same order not guaranteed)
 	Via      string         // non-empty when inherited from an unexported helper
 	Conj     string         // shapes of sibling leaves that must hold jointly (conjunctive guard)
+	Skip     bool           // `if cond { continue }` filter inside a loop
 }
 
 // Sig is the inventory signature (without strength).
@@ -55,6 +56,9 @@ func (a *Atom) Sig() string {
 	}
 	if a.Tail {
 		s = "tail " + s
+	}
+	if a.Skip {
+		s = "skip " + s
 	}
 	return s
 }
@@ -719,7 +723,7 @@ func (u *Unit) rootCalls(e ast.Expr, at ast.Node, seen map[ast.Node]bool, depth 
 		// method chains on an error value: errs.Wrap(err).WithMessage(..)
 		if sel, ok := ast.Unparen(x.Fun).(*ast.SelectorExpr); ok {
 			if t := u.Info.TypeOf(sel.X); t != nil && (isErrorType(t) || types.Implements(t, errorIface)) {
-				if f := typeutil.StaticCallee(u.Info, x); f != nil && strings.HasPrefix(f.Name(), "With") {
+				if f, _ := typeutil.Callee(u.Info, x).(*types.Func); f != nil && strings.HasPrefix(f.Name(), "With") {
 					u.rootCalls(sel.X, at, seen, depth, out)
 					return
 				}
@@ -745,6 +749,13 @@ func (u *Unit) rootCalls(e ast.Expr, at ast.Node, seen map[ast.Node]bool, depth 
 			seen[key] = true
 			if d.rhs != nil {
 				u.rootCalls(d.rhs, d.node, seen, depth+1, out)
+			}
+			// accumulator idiom: a flag/abort-list updated under a condition depends on that condition
+			for _, ifs := range u.enclosingIfs(d.node) {
+				if !seen[ifs] {
+					seen[ifs] = true
+					u.rootCalls(ifs.Cond, ifs.Cond, seen, depth+1, out)
+				}
 			}
 		}
 	case *ast.IndexExpr:
@@ -904,6 +915,13 @@ func (u *Unit) extractAtoms(g *GuardEngine) {
 			continue
 		}
 		last := ast.Unparen(res[len(res)-1])
+		for {
+			if ue, ok := last.(*ast.UnaryExpr); ok && ue.Op == token.NOT {
+				last = ast.Unparen(ue.X)
+				continue
+			}
+			break
+		}
 		call, ok := last.(*ast.CallExpr)
 		if !ok {
 			continue
@@ -954,6 +972,48 @@ func (u *Unit) extractAtoms(g *GuardEngine) {
 		sort.Strings(a.Callees)
 		u.Atoms = append(u.Atoms, a)
 	}
+	// skip atoms: `if cond { ...; continue }` filters inside loops (no else)
+	ast.Inspect(u.Body, func(n ast.Node) bool {
+		if lit, ok := n.(*ast.FuncLit); ok && lit != u.Lit {
+			return false
+		}
+		ifs, ok := n.(*ast.IfStmt)
+		if !ok || ifs.Else != nil || len(ifs.Body.List) == 0 {
+			return true
+		}
+		br, ok := ifs.Body.List[len(ifs.Body.List)-1].(*ast.BranchStmt)
+		if !ok || br.Tok != token.CONTINUE {
+			return true
+		}
+		blk := u.BlockOf(ifs.Cond)
+		if blk == nil || !blk.Live || u.FR[blk] {
+			return true
+		}
+		var leaves []leafInfo
+		splitLeaves(ifs.Cond, true, &leaves)
+		for _, lf := range leaves {
+			a := &Atom{Leaf: lf.expr, FailTrue: lf.failTrue, Block: blk, Unit: u, Pos: lf.expr.Pos(), Must: pd[blk], InLit: u.Lit != nil, Skip: true}
+			if len(blk.Succs) == 2 {
+				a.FailSucc, a.OkSucc = blk.Succs[0], blk.Succs[1]
+			}
+			var calls []*ast.CallExpr
+			u.rootCalls(lf.expr, ifs.Cond, map[ast.Node]bool{}, 0, &calls)
+			a.Calls = calls
+			ks := map[string]bool{}
+			for _, c := range calls {
+				if k := u.calleeKey(c); k != "" {
+					ks[k] = true
+				}
+			}
+			for k := range ks {
+				a.Callees = append(a.Callees, k)
+			}
+			sort.Strings(a.Callees)
+			a.Shape = u.leafShape(lf.expr, lf.failTrue)
+			u.Atoms = append(u.Atoms, a)
+		}
+		return true
+	})
 	// nested literals: analyse each and attribute their atoms
 	ast.Inspect(u.Body, func(n ast.Node) bool {
 		if lit, ok := n.(*ast.FuncLit); ok {
@@ -1178,6 +1238,7 @@ type InvCount struct {
 	Total int      `json:"n"`
 	Must  int      `json:"must"`
 	Args  []string `json:"args,omitempty"` // operand shapes of each occurrence (sorted)
+	Tags  []string `json:"tags,omitempty"` // blame-tag value shapes found in the failure branch (sorted)
 }
 
 func (g *GuardEngine) InventoryOf(fd *FuncDecl) Inventory {
@@ -1196,9 +1257,60 @@ func (g *GuardEngine) InventoryOf(fd *FuncDecl) Inventory {
 		if as := a.ArgSig(); as != "" {
 			c.Args = append(c.Args, as)
 		}
+		for _, t := range a.BlameTags() {
+			c.Tags = append(c.Tags, t)
+		}
+	}
+	// standalone blame-tag sites (also those not inside a failure branch, e.g. accumulated aborts)
+	for _, u := range g.unitsOf(fd) {
+		for _, t := range u.tagSites() {
+			k := "blame-tag " + t
+			c := inv[k]
+			if c == nil {
+				c = &InvCount{}
+				inv[k] = c
+			}
+			c.Total++
+		}
 	}
 	for _, c := range inv {
 		sort.Strings(c.Args)
+		sort.Strings(c.Tags)
 	}
 	return inv
+}
+
+// enclosingIfs returns the if statements (innermost first) whose then/else branch contains n,
+// stopping at the nearest enclosing loop or function literal.
+func (u *Unit) enclosingIfs(n ast.Node) []*ast.IfStmt {
+	var path []ast.Node
+	var found []ast.Node
+	ast.Inspect(u.Body, func(x ast.Node) bool {
+		if found != nil {
+			return false
+		}
+		if x == nil {
+			path = path[:len(path)-1]
+			return true
+		}
+		path = append(path, x)
+		if x == n {
+			found = append([]ast.Node{}, path...)
+			return false
+		}
+		return true
+	})
+	var out []*ast.IfStmt
+	for i := len(found) - 2; i >= 0; i-- {
+		switch p := found[i].(type) {
+		case *ast.ForStmt, *ast.RangeStmt, *ast.FuncLit:
+			return out
+		case *ast.IfStmt:
+			child := found[i+1]
+			if child == ast.Node(p.Body) || (p.Else != nil && child == p.Else) {
+				out = append(out, p)
+			}
+		}
+	}
+	return out
 }
